@@ -263,8 +263,14 @@ class Exec:
         for pv in v.ty.values:
             f = rty.field_of_key(pv)
             if f is None:
-                raise Unsupported("record %s has no field for enum member %r" % (rty, pv))
+                # a dict literal without an entry for this member: indexing with it is a KeyError -> safety obligation
+                if not self.ctx.spec_mode:
+                    self.ctx.oblige("safety", st, v.t != v.ty.const(pv), getattr(node, "lineno", 0),
+                                    "key %r is not in the mapping" % (pv,))
+                continue
             fields.append((pv, f))
+        if not fields:
+            raise Unsupported("record %s has no field for any member of %s" % (rty, v.ty))
         if len({id(rty.fields[f]) for _, f in fields}) != 1:
             raise Unsupported("record %s indexed by a symbolic key has fields of different types" % rty)
         return v, fields
@@ -403,6 +409,13 @@ class Exec:
         """string formatting left opaque (A7): an uninterpreted function of the format and the argument tuple"""
         args = lift(args)
         items = args.items if isinstance(args, PyTup) else [args]
+
+        def _as_text(x):
+            # Optional[str] formats as the string itself or as the text "None": the same opaque function as for plain strings
+            if isinstance(x, V) and isinstance(x.ty, UnionT) and set(x.ty.alts) == {"none", "some"} and x.ty.alts["some"] is STR:
+                return V(STR, z3.If(x.ty.is_(x.t, "none"), z3.StringVal("None"), x.ty.val(x.t, "some")))
+            return x
+        items = [_as_text(x) for x in items]
         terms = [fmt.t] + [x.t for x in items]
         name = "fmt_%s_%s" % (kind, "_".join(x.ty.name for x in items))
         name = name.replace("[", "_").replace("]", "_")
